@@ -476,5 +476,51 @@ theorem answers_getElem (sha : Str → Str) (st : St) (ops : List Op) (i : Nat) 
       simp only [answers, List.getElem_cons_succ, List.take_succ_cons, run_cons]
       exact ih _ i (by simpa using hi)
 
+/-! ## The validator by anchor kind, and the F5 witnesses -/
+
+/-- What the validator accepts, for each `re` function the translator can report. -/
+def AcceptsK (k : Nat) (s : Str) : Prop :=
+  match k with
+  | 0 => ∃ c rest, s = c :: rest ∧ docChar c = true
+  | 1 => FullyValid s
+  | 2 => ∃ c ∈ s, docChar c = true
+  | _ => False
+
+theorem validNameK_iff (k : Nat) (s : Str) :
+    validNameK k Generated.catalogNameClass s = true ↔ AcceptsK k s := by
+  match k with
+  | 0 => simp only [validNameK, AcceptsK, reMatch_iff, inClass_doc]
+  | 1 => exact validNameK_full_iff s
+  | 2 => simp only [validNameK, AcceptsK, reSearch_iff, inClass_doc]
+  | k + 3 => simp [validNameK, AcceptsK]
+
+/-- `a/../b` -/
+def witDots : Str := ['a', '/', '.', '.', '/', 'b']
+/-- `a/b` -/
+def witSlash : Str := ['a', '/', 'b']
+/-- `a b` -/
+def witSpace : Str := ['a', ' ', 'b']
+/-- `a\n` -/
+def witNewline : Str := ['a', '\n']
+/-- `b` -/
+def witB : Str := ['b']
+
+/-- Every name that starts with a documented character is accepted by `re.match` and `re.search`. -/
+theorem validName_of_head {k : Nat} (hk : k = 0 ∨ k = 2) {c : Char} (rest : Str) (hc : docChar c = true) :
+    validNameK k Generated.catalogNameClass (c :: rest) = true := by
+  rw [validNameK_iff]
+  rcases hk with rfl | rfl
+  · exact ⟨c, rest, rfl, hc⟩
+  · exact ⟨c, by simp, hc⟩
+
+theorem not_fullyValid_of_mem {s : Str} {c : Char} (hc : c ∈ s) (hd : docChar c = false) : ¬ FullyValid s := by
+  intro h; rw [h.2 c hc] at hd; exact Bool.noConfusion hd
+
+/-- `normpath(root/.pytask/data_catalogs/a/../b)` is the directory of catalog `b`. -/
+theorem catalogDir_witDots (root : Path) : catalogDir root witDots = catalogDir root witB := by
+  simp [catalogDir, normComps, witDots, witB, splitSlash, normStep]
+
+theorem kind_cases {k : Nat} (hk : k ≤ 2) (h1 : ¬ k = 1) : k = 0 ∨ k = 2 := by omega
+
 end Catalog
 end Pytask
